@@ -185,8 +185,16 @@ func (e *Engine) Run(ops []string, res *report.Result) *report.Failure {
 			if len(mf) < 3 || mf[0] != "r" {
 				return fail(i, "disagreement", "", model, "", "driver rejected read")
 			}
-			if intr {
+			// an interrupt that is already pending when a Read that does not have to block is
+			// entered (a remainder is buffered): the Read returns its data, nothing is lost
+			// (on the blocking path with data visible both cases of the select are ready and Go
+			// picks either: not generated)
+			pend := wantIntr && !bp
+			if intr || pend {
 				im.intr <- struct{}{}
+			}
+			if pend {
+				res.Count("read:interrupt-pending-on-entry")
 			}
 			done := make(chan readRes, 1)
 			go func() {
@@ -200,7 +208,7 @@ func (e *Engine) Run(ops []string, res *report.Result) *report.Failure {
 			case <-time.After(2 * time.Second):
 				return fail(i, "hang", "C18", model, "read did not return within 2 s", "read blocks")
 			}
-			if intr {
+			if intr || pend {
 				select {
 				case <-im.intr:
 				default:
